@@ -190,12 +190,15 @@ pub fn run_c03(tier: Tier) -> Report {
 
     // ---- S-types: every assignment of 7 macroblock kinds (6 + IntraQ via code 6) to the macroblocks
     let mut cases = vec![];
-    let grids: Vec<(u16, u16)> = vec![(32, 32), (16, 16), (48, 16), (16, 48), (20, 12)];
+    let mut grids: Vec<(u16, u16)> = vec![(32, 32), (16, 16), (48, 16), (16, 48), (20, 12)];
+    if tier.thorough() {
+        grids.extend([(48, 32), (17, 33)]);
+    }
     for &(w, h) in &grids {
         let (mbw, mbh) = mb_grid(w, h);
         let n = mbw * mbh;
         for version in [0u8, 1] {
-            if version == 1 && n == 4 && !tier.thorough() {
+            if version == 1 && n >= 4 && (!tier.thorough() || n > 4) {
                 continue;
             }
             let reference = noise_intra(shdr(w, h, 0, 0, 6, version), seed);
@@ -244,7 +247,7 @@ pub fn run_c03(tier: Tier) -> Report {
 
     // ---- S-edge: single-macroblock pictures of every size class x every differential
     let mut cases = vec![];
-    let classes: Vec<(u16, u16)> = if tier.thorough() { vec![(16, 16), (17, 17), (8, 8), (1, 1), (20, 12), (15, 9), (2, 3)] } else { vec![(16, 16), (17, 17), (8, 8), (1, 1), (20, 12)] };
+    let classes: Vec<(u16, u16)> = if tier.thorough() { vec![(16, 16), (17, 17), (8, 8), (1, 1), (20, 12), (15, 9), (2, 3), (9, 16), (16, 9), (7, 1), (1, 7), (31, 15), (24, 24), (3, 17)] } else { vec![(16, 16), (17, 17), (8, 8), (1, 1), (20, 12)] };
     for &(w, h) in &classes {
         let (mbw, mbh) = mb_grid(w, h);
         let reference = noise_intra(shdr(w, h, 0, 0, 5, 0), seed);
@@ -264,10 +267,10 @@ pub fn run_c03(tier: Tier) -> Report {
     // ---- S-phase: interior macroblock of 48x48, every vector x residual kind
     let mut cases = vec![];
     let reference = noise_intra(shdr(48, 48, 0, 0, 5, 1), seed);
-    let targets: Vec<usize> = if tier.thorough() { vec![4, 0, 2, 6, 8] } else { vec![4] };
+    let targets: Vec<usize> = if tier.thorough() { (0..9).collect() } else { vec![4] };
     for &t in &targets {
         for resid in 0..3usize {
-            if t != 4 && resid != 1 {
+            if t != 4 && resid != 1 && !tier.thorough() {
                 continue;
             }
             for dx in -32..=31i8 {
